@@ -14,7 +14,7 @@ EXPLANATION = (
     "under self.reneging; the renege scan ranges over all customers, admits a candidate only when it has no server on both the reset and the tie arm, and the renege event "
     "is produced only at finite-server nodes (where `ind.server` means 'in service'); renege() removes the chosen customer, writes exactly one renege record before the reset "
     "and hands it to next_node_for_jockeying exactly once; an arrival baulks exactly when random() < baulking_function(population of the node it would join, ...) (strict), "
-    "and a baulk is record + exit; waiting timers are re-armed at every entry into the waiting state (finding K-04). Probabilities and exact renege instants of a run are not decided.")
+    "and a baulk is record + exit; waiting timers are re-armed at every entry into the waiting state (finding K-04). On every path of renege the node that accepts the customer is the object next_node_for_jockeying returned for that customer; decide_next_event takes simultaneous events in a fixed literal first-wins order in which renege comes after slot, shift change and end of service. Probabilities and exact renege instants of a run are not decided.")
 RULE = "instances = patience assignment paths, the renege scan arms, renege() paths, the baulk decision paths of all arrival views"
 
 
